@@ -192,12 +192,12 @@ class ConstEnv:
                             vals[t.id] = n.value
                         else:
                             for nm in ast.walk(t):
-                                if isinstance(nm, ast.Name):
+                                if isinstance(nm, ast.Name) and isinstance(nm.ctx, ast.Store):
                                     counts[nm.id] = counts.get(nm.id, 0) + 2
                 elif isinstance(n, (ast.AugAssign, ast.For, ast.NamedExpr, ast.comprehension)):
                     tgt = n.target
                     for nm in ast.walk(tgt):
-                        if isinstance(nm, ast.Name):
+                        if isinstance(nm, ast.Name) and isinstance(nm.ctx, ast.Store):
                             counts[nm.id] = counts.get(nm.id, 0) + 2
                 elif isinstance(n, (ast.Nonlocal, ast.Global)):
                     for nm in n.names:
